@@ -1,14 +1,14 @@
 SPECIFICATION Spec
 CONSTANTS
   Alphabet = {"lo", "up", "dg", "us", "st", "sp", "dd", "sl", "dq", "sq", "bt", "bs", "nl", "nu", "d2", "d3", "nd", "no", "ns", "iv"}
-  MaxLen = 4
-  MinLen = 4
+  MaxLen = 2
+  MinLen = 0
   Shapes = {"flat", "obj", "multi"}
-  LimMode = "prod"
+  LimMode = "all"
   Firsts = {"lo", "up", "dg", "us", "st", "sp", "dd", "sl", "dq", "sq", "bt", "bs", "nl", "nu", "d2", "d3", "nd", "no", "ns", "iv"}
-  Sample = TRUE
+  Sample = FALSE
 INVARIANT OwnContentFindsIt
 INVARIANT NoUnproducibleToken
 INVARIANT RenderLexRoundTrip
 INVARIANT LowerShortcutSound
-INVARIANT Emit
+INVARIANT DeviationIsExact
